@@ -326,6 +326,11 @@ def _clear_caches():
 INTERP_FLAGS = ("-O", "-OO")
 
 
+def interp_axis(units):
+    """The given work units once more, each inside a child interpreter started with -O and with -OO (assert statements / docstrings stripped)."""
+    return [("interp", flag, u) for flag in INTERP_FLAGS for u in units]
+
+
 def child(mode: str, modname: str, arg, flag: str, timeout=1400):
     """Run a unit / a replay in a child interpreter started with `flag`; returns the child's packed record."""
     import base64
